@@ -1,6 +1,7 @@
 """C08 reactor timed calls: run once, on time, in time order (ReactorBase timer heap)."""
 from twisted.internet import error
 from twisted.internet.base import DelayedCall, ReactorBase
+from twisted.logger import globalLogPublisher
 
 from vlib import api
 from vlib.api import H, cover
@@ -209,7 +210,18 @@ class _W:
 
     def iterate(self):
         self.it += 1
-        self.R.runUntilCurrent()
+        errs = []
+
+        def _obs(event):
+            if event.get("log_failure") is not None:
+                errs.append(1)
+        globalLogPublisher.addObserver(_obs)
+        try:
+            self.R.runUntilCurrent()
+        finally:
+            globalLogPublisher.removeObserver(_obs)
+        if errs:
+            self.ok = False     # runUntilCurrent logged an exception (e.g. it tried to run a cancelled call)
         now = self.R.now
         ok = True
         for j in range(len(self.mt)):
@@ -490,7 +502,7 @@ def _hist_shards(tier):
     out = [("act == 0",), ("act == 1", "who == -1"), ("act == 4", "who == -1")]
     out += [("act == %d" % a, "who == -1", "tgt == %d" % t) for a in (2, 3) for t in range(n)]
     if tier == "quick":
-        out += [("act == %d" % a, "who >= 0") for a in range(1, 5)]
+        out += [("act == %d" % a, "who >= 0") for a in (1, 2, 4)] + [("act == 3", "who == 0"), ("act == 3", "who >= 1")]
     else:
         out += [("act == %d" % a, "who == %d" % w) for a in range(1, 5) for w in range(BOUNDS[tier]["ni"])]
     return out
